@@ -11,9 +11,10 @@ import sys
 import time
 
 VERIF = '/verif'
-REPO = '/repo'
+REPO = os.environ.get('PYCTR_REPO', '/repo')        # scratch checkouts for mutant trials only; registered commands use /repo
 COQ = os.path.join(VERIF, 'coq')
-BUILD = os.path.join(VERIF, '_build')
+OUT = os.environ.get('VERIF_OUT', VERIF)             # where _build / evidence / replays go (mutant trials redirect this)
+BUILD = os.path.join(OUT, '_build')
 ALLOWED_AXIOMS = {
     # standard-library axioms that may appear (none is expected; listed for the parser)
     'functional_extensionality_dep', 'proof_irrelevance', 'Eqdep.Eq_rect_eq.eq_rect_eq',
@@ -108,7 +109,7 @@ def count_lemmas(path):
     return n
 
 
-def prove(prop, gen_modules, dyn_files, static_deps=()):
+def prove(prop, gen_modules, dyn_files, static_deps=(), extra_gen=()):
     """tie 1 + proof step: regenerate kernels, compile generated + bridge + property files."""
     from . import py2gallina, kernels
     res = ProofResult()
@@ -136,6 +137,11 @@ def prove(prop, gen_modules, dyn_files, static_deps=()):
             res.ok = False
             res.failed.append((f'translator:{m}', f'syntax error in source: {e}'))
             continue
+        with open(target, 'w') as f:
+            f.write(text)
+        files.append(target)
+    for name, text in extra_gen:          # files generated by the check itself from what the implementation does now
+        target = os.path.join(bdir, name + '.v')
         with open(target, 'w') as f:
             f.write(text)
         files.append(target)
@@ -287,7 +293,7 @@ class Ctx:
 
 
 def write_replay(prop, payload):
-    d = os.path.join(VERIF, 'replays', prop)
+    d = os.path.join(OUT, 'replays', prop)
     os.makedirs(d, exist_ok=True)
     blob = json.dumps(payload, sort_keys=True, default=str, indent=1)
     name = hashlib.sha1(blob.encode()).hexdigest()[:12] + '.json'
@@ -351,8 +357,8 @@ def finish(ctx, proof, technique_rule, trusted_base, assumptions, extra_cov=None
         cov.update(extra_cov)
     ev = dict(property_id=ctx.prop, tier=ctx.tier, seed=ctx.seed, level='proof', coverage=cov,
               assumptions=assumptions + ctx.notes, wall_s=round(time.time() - ctx.t0, 2), violations=violations)
-    os.makedirs(os.path.join(VERIF, 'evidence'), exist_ok=True)
-    with open(os.path.join(VERIF, 'evidence', ctx.prop + '.json'), 'w') as f:
+    os.makedirs(os.path.join(OUT, 'evidence'), exist_ok=True)
+    with open(os.path.join(OUT, 'evidence', ctx.prop + '.json'), 'w') as f:
         json.dump(ev, f, indent=1, default=str)
     for l in lines:
         print(l)
